@@ -525,6 +525,11 @@ class DynEngine(Engine):
                 valid, first_bad = False, ('NameError' if not sks[ci] or sks[ci] == ['list', []] else None)
                 break
               if r[0] not in w.objs and (sks[ci] is True or (isinstance(sks[ci], list) and n in sks[ci][1])):
+                if any(q == n or q.endswith('.' + n) for q in registered_so_far):
+                  # the dotted name is a suffix of a REGISTERED selector (hence known, not skipped) while this text's own
+                  # import binds its first component to a module without that attribute: a legitimate AttributeError
+                  valid = False
+                  break
                 continue             # a missing attribute is an unknown name too: covered by skip_unknown
               if r[0] not in w.objs:
                 valid, first_bad = False, ('AttributeError' if r[0].rpartition('.')[0] in w.objs or r[0].rpartition('.')[0] in UNIVERSE else None)
